@@ -152,6 +152,7 @@ pub fn dash_path(path: &Path, dash_array: &[f32], mut dash_offset: f32) -> Path 
                             first_dash = false;
                             dashed.move_to(seg.x, seg.y);
                         }
+                        is_first_segment = false;
                         state.on = !state.on;
                         state.index += 1;
                         len -= state.remaining_length;
@@ -161,7 +162,11 @@ pub fn dash_path(path: &Path, dash_array: &[f32], mut dash_offset: f32) -> Path 
 
                     if state.on {
                         if first_dash {
-                            // If we're still on the first dash we can just close
+                            // If we're still on the first dash the whole subpath is on:
+                            // emit it and close
+                            for pt in initial_segment {
+                                dashed.line_to(pt.x, pt.y);
+                            }
                             dashed.close();
                         } else {
                             if initial_segment.len() > 0 {
@@ -184,7 +189,9 @@ pub fn dash_path(path: &Path, dash_array: &[f32], mut dash_offset: f32) -> Path 
                     initial_segment = Vec::new();
                     cur_pt = Some(start_point);
 
-                    // reset the dash state
+                    // reset the dash state: anything that follows starts a new subpath
+                    is_first_segment = true;
+                    first_dash = true;
                     state = initial;
                 } else {
                     cur_pt = None;
